@@ -1675,15 +1675,7 @@ UNB = object()
 
 
 def issym(c):
-    """symbolic guard?  A proxy whose term is a literal constant (structure bits written as constants) is treated as concrete: the
-    converted branch is then executed as the plain `if`"""
-    if not isinstance(c, (SymInt, SymBool)):
-        return False
-    t = c.t
-    if z3.is_true(t) or z3.is_false(t) or z3.is_bv_value(t):
-        return False
-    t = z3.simplify(t)
-    return not (z3.is_true(t) or z3.is_false(t) or z3.is_bv_value(t))
+    return isinstance(c, (SymInt, SymBool))
 
 
 def snap(loc, names):
